@@ -261,11 +261,6 @@ func (dsm *DsManager) DeleteDataset(name string) error {
 	dsm.store.datasets.Delete(name)
 	dsm.store.datasetsByInternalID.Delete(existingDataset.InternalID)
 	key := existingDataset.getStorageKey()
-	err := dsm.store.deleteValue(key)
-	if err != nil {
-		return err
-	}
-	verifhook.Point("delete.after-record")
 
 	// record we deleted it.
 	// swap map out with new modified copy of map to avoid concurrent read/write issues which can occur if
@@ -276,10 +271,14 @@ func (dsm *DsManager) DeleteDataset(name string) error {
 	}
 	newDeletedDatasets[existingDataset.InternalID] = true
 	dsm.store.deletedDatasets = newDeletedDatasets
-	err = dsm.store.StoreObject(StoreMetaIndex, "deleteddatasets", dsm.store.deletedDatasets)
+	// remove the dataset record and persist the set of deleted datasets in one transaction: if only
+	// the record was gone after a crash, the dataset's data would stay visible to unscoped reads
+	// and could never be garbage collected
+	err := dsm.store.deleteValueAndStoreObject(key, StoreMetaIndex, "deleteddatasets", dsm.store.deletedDatasets)
 	if err != nil {
 		return err
 	}
+	verifhook.Point("delete.after-record")
 	verifhook.Point("delete.after-deleted-set")
 
 	dsm.eb.UnregisterTopic(name) // unregister event-handler on this topic. Note that subscriptions are left.
